@@ -94,7 +94,7 @@ JIT_CFGS = [{"N": 2, "W": 2, "K": 3, "beta": 4.0, "lam": 0.11, "limit": 3, "m": 
 
 def run(ctx):
     rng = np.random.default_rng(ctx.seed)
-    ctx.proof_layer(allowed_axioms=core.R_AX, coq_deps=["Corr/RunAccounting"], gen=["main_loop_results", "main_loop_suffix"])
+    ctx.proof_layer(allowed_axioms=core.R_AX, coq_deps=["Corr/RunAccounting"], gen=["main_loop_results", "main_loop_suffix", "main_loop_full"])
     core.note_drift(ctx, ANCHORS)
     jit_handle = core.start_worker(ctx, "vcheck.props.c06:worker_runs", JIT_CFGS, mode="jit", tag="jitruns")
     cov = core.LineCoverage()
